@@ -115,6 +115,7 @@ class P(Prop):
         from feems.exceptions import InputError
         st = case["stream"]
         obs = {"runs": []}
+        held = []
         try:
             with np.errstate(all="ignore"):
                 if st == "electric":
@@ -134,6 +135,8 @@ class P(Prop):
                         _, _, fres = sysrun.run_electric(case["plant"], inp)
                         obs["runs"].append({"pin_set": pin_set, "res": outs, "rated": [float(o.rated_power) for o in objs],
                                             "first": s1, "after_queries": s2, "repeat": s3, "fresh": sysrun.snap(fres)})
+                        held.append(res)
+                    self.combine_held(held, obs)
                 elif st == "mechanical":
                     from feems.components_model.utility import IntegrationMethod
                     sysm, objs = pg.build_mechanical_system(case["plant"])
@@ -148,6 +151,8 @@ class P(Prop):
                         s2 = sysrun.snap(res)
                         _, _, fres = sysrun.run_mechanical(case["plant"], inp)
                         obs["runs"].append({"c4": o4, "first": s1, "after_queries": s2, "fresh": sysrun.snap(fres)})
+                        held.append(res)
+                    self.combine_held(held, obs)
                 else:
                     from RunFeemsSim.machinery_calculation import MachineryCalculation
                     from feems.system_model import MechanicalPropulsionSystem, MechanicalPropulsionSystemWithElectricPowerSystem
@@ -178,6 +183,19 @@ class P(Prop):
         except InputError as e:
             return {"rejected": str(e)[:80]}
         return obs
+
+    @staticmethod
+    def combine_held(held, obs):
+        """the results of all runs are still held by the caller, who now adds them up (consecutive periods, then the same
+        period): forming the totals only reads the held results"""
+        if len(held) < 2:
+            return
+        tot = held[0]
+        for r in held[1:]:
+            tot = tot.sum_and_extend_duration(r)
+        held[-1].sum_with_freeze_duration(held[-1])     # two machines' results over the same period
+        for k, r in enumerate(held):
+            obs["runs"][k]["after_combining"] = sysrun.snap(r)
 
     def snap_mech(self, sysm, objs, plant, inp):
         loads_before = {i: np.array(o.power_input, dtype=float).copy() for i, (d, o) in enumerate(zip(plant["mech"], objs))
@@ -226,6 +244,10 @@ class P(Prop):
                 d = sysrun.figures_diff(r["first"], r["repeat"])
                 if d:
                     return f"calculation no. {k + 1}: repeating it with the same inputs changes {d[:3]}"
+            if "after_combining" in r:
+                d = sysrun.figures_diff(r["first"], r["after_combining"])
+                if d:
+                    return f"the result of calculation no. {k + 1}, still held, changed when the results were added up: {d[:3]}"
         return None
 
     def nontrivial(self, case, obs):
